@@ -7,8 +7,10 @@
 package progs
 
 import (
+	"context"
 	"fmt"
 	"sync"
+	"sync/atomic"
 	"time"
 )
 
@@ -47,6 +49,160 @@ var All = []Prog{
 	{"timer-after-select-timeout", afterTimeout, true},
 	{"ticker-drops-ticks-when-full", tickerDrop, true},
 	{"timer-stop-then-no-fire", timerStopNoFire, true},
+	{"context-cancel-stops-worker", ctxCancel, false},
+	{"context-cancel-propagates-to-children", ctxChildren, false},
+	{"context-timeout", ctxTimeout, true},
+	{"context-cancel-vs-timeout", ctxCancelVsTimeout, true},
+	{"once-value", onceValue, false},
+	{"atomic-typed-counter", atomicTyped, false},
+}
+
+// A worker selecting on ctx.Done() and a work channel: after cancel returns and the worker has been
+// joined, Err is Canceled; the worker saw either outcome of the race between the item and the cancel.
+func ctxCancel() string {
+	ctx, cancel := context.WithCancel(context.Background())
+	work := make(chan int, 1)
+	done := make(chan string)
+	go func() {
+		select {
+		case <-ctx.Done():
+			done <- "cancelled"
+		case v := <-work:
+			done <- fmt.Sprint("item", v)
+		}
+	}()
+	go func() { work <- 1 }()
+	cancel()
+	out := <-done
+	if ctx.Err() != context.Canceled {
+		return "ASSERT Err after cancel is not Canceled"
+	}
+	cancel() // idempotent
+	return out
+}
+
+// Cancelling a parent cancels children and grandchildren (synchronously: Err is set when cancel returns);
+// cancelling a child leaves the parent alone; a context derived from a cancelled one is born cancelled.
+func ctxChildren() string {
+	parent, cancelP := context.WithCancel(context.Background())
+	child, cancelC := context.WithCancel(parent)
+	grand, cancelG := context.WithCancel(context.WithValue(child, "k", "v"))
+	sib, cancelS := context.WithCancel(parent)
+	defer cancelG()
+	cancelS()
+	if parent.Err() != nil || child.Err() != nil {
+		return "ASSERT cancelling a child cancelled its parent or sibling"
+	}
+	if sib.Err() != context.Canceled {
+		return "ASSERT cancelled child has no error"
+	}
+	var wg sync.WaitGroup
+	seen := make([]string, 2)
+	seen[0] = "context canceled"
+	wg.Add(1)
+	go func() {
+		defer wg.Done()
+		<-grand.Done()
+		seen[1] = fmt.Sprint(grand.Err())
+	}()
+	cancelP()
+	if child.Err() != context.Canceled || grand.Err() != context.Canceled {
+		return "ASSERT cancel returned before the descendants were cancelled"
+	}
+	wg.Wait()
+	cancelC()
+	late, cancelL := context.WithCancel(grand)
+	defer cancelL()
+	select {
+	case <-late.Done():
+	default:
+		return "ASSERT a context derived from a cancelled one is not done"
+	}
+	if grand.Value("k") != "v" || late.Value("k") != "v" {
+		return "ASSERT value lost"
+	}
+	return seen[0] + "," + seen[1]
+}
+
+func ctxTimeout() string {
+	ctx, cancel := context.WithTimeout(context.Background(), 20*ms)
+	defer cancel()
+	start := time.Now()
+	if _, ok := ctx.Deadline(); !ok {
+		return "ASSERT no deadline"
+	}
+	select {
+	case <-ctx.Done():
+	case <-time.After(2000 * ms):
+		return "ASSERT the deadline never fired"
+	}
+	if time.Since(start) < 20*ms {
+		return "ASSERT done before the deadline"
+	}
+	return fmt.Sprint(ctx.Err())
+}
+
+// cancel long before the deadline: Canceled wins, the timer is stopped and never overwrites the error.
+func ctxCancelVsTimeout() string {
+	ctx, cancel := context.WithTimeout(context.Background(), 60*ms)
+	time.Sleep(5 * ms)
+	cancel()
+	<-ctx.Done()
+	first := ctx.Err()
+	time.Sleep(100 * ms)
+	if ctx.Err() != first {
+		return "ASSERT the error changed after cancellation"
+	}
+	// a child with a later deadline than its parent inherits the parent's
+	p, cp := context.WithTimeout(context.Background(), 10*ms)
+	defer cp()
+	c, cc := context.WithTimeout(p, 500*ms)
+	defer cc()
+	<-c.Done()
+	return fmt.Sprint(first, ",", c.Err())
+}
+
+func onceValue() string {
+	runs := 0
+	get := sync.OnceValue(func() int { runs++; return 7 })
+	var wg sync.WaitGroup
+	bad := ""
+	for i := 0; i < 3; i++ {
+		wg.Add(1)
+		go func() {
+			defer wg.Done()
+			if get() != 7 {
+				bad = "ASSERT OnceValue returned before the value was computed"
+			}
+		}()
+	}
+	wg.Wait()
+	if bad != "" {
+		return bad
+	}
+	return fmt.Sprint(runs)
+}
+
+// Typed atomics: a lost update is impossible with Add, possible with Load+Store.
+func atomicTyped() string {
+	var a atomic.Int64
+	var b atomic.Int32
+	var flag atomic.Bool
+	var wg sync.WaitGroup
+	for i := 0; i < 2; i++ {
+		wg.Add(1)
+		go func() {
+			defer wg.Done()
+			a.Add(1)
+			b.Store(b.Load() + 1)
+			flag.CompareAndSwap(false, true)
+		}()
+	}
+	wg.Wait()
+	if a.Load() != 2 || !flag.Load() {
+		return "ASSERT atomic add lost an update"
+	}
+	return fmt.Sprint(b.Load())
 }
 
 func mutexCounter() string {
